@@ -21,6 +21,14 @@ CHECKS = {
 }
 CHECKS['C20'] = ('registry table only touched under its lock; refresh = one critical section with dead guard and monotone max; single audited writers; liveness = now - last heartbeat < threshold fed only the send time of completed non-failed calls; ownership test-and-set under the state lock; every acquiring pool-level operation releases on every return/raise/generator-close path; next_idle_worker never keeps an unfit worker',
                  'lockset analysis + CFG dominance/must-pass-through (acquire/release pairing incl. exceptional and generator-close exits)')
+CHECKS['C13'] = ('shared input wrapped in the lock-protected iterator before fan-out and advanced under its lock; max_enqueuer equals the number of submitted producers over one materialised input list; producer return values forwarded; queue and pool stopped on every terminal path (R-C05-5)',
+                 'CFG dominance with branch pruning, lockset analysis, AST table agreement')
+CHECKS['C14'] = ('client RPC names/arity/keywords fit the server Bind table; compress flag and decoder agree per call site and the pickler is symmetric; returned exceptions raised and lazy results stay remote; RemoteObject forwarding wraps the matching lazy operation; sync/async siblings issue the same remote operation; shutdown substitutes TimeoutError before the error leaves',
+                 'writer/reader table agreement over AST-extracted tables, normalised sibling comparison, CFG dominance')
+CHECKS['C15'] = ('generator/thread fields stored only under the generator lock; previous prefetch stopped before a new queue/thread is created and started; maybe_stop dominates join; end marker only when exhausted (exception first, else StopIteration(*returned)); uninitialised answer [TimeoutError]; shutdown callback wired and run before Stop(); generator RPCs bound',
+                 'lockset analysis + CFG dominance/must-pass queries')
+CHECKS['C16'] = ('strict-count guard dominates every return of both merge_states and the counter is per state; shard tasks enumerate each index once; exactly one final AggregateResult per merge thread and per interleaved stage; every collected agg state is merged; terminal marker (R-C06-4) and RPC table (R-C14-1)',
+                 'CFG dominance and reachability, AST structure, table agreement')
 NA = {
     'C02': 'slice membership and per-slice aggregate equality quantify over runtime mask/slice-key values produced by user functions; no structural clause separates a correct from an off-by-one mask builder',
     'C03': 'equality of outputs across threaded/fused/sharded executions is a relation between executions; its only structural ingredients (shared-input locking, merge count) are claimed under C13 and C16',
